@@ -63,6 +63,15 @@ AlphabetSet ==
         {Op("tx", [BaseTx("acc", s) EXCEPT !.eon = BadEon, !.to = <<r, BadPeer(r)>>], "fresh") : s \in Addrs, r \in Addrs} \cup
         {Op("tx", [BaseTx("acc", s) EXCEPT !.eon = BadEon, !.to = TwoOthers(s), !.bad = "dupAddr"], "fresh") : s \in Addrs}
      ELSE {}) \cup
+    (IF "dkgone" \in Kinds THEN
+        (* one well-formed DKG message of each type per eon, from one fixed keyper to one fixed peer:
+           small enough to be combined exhaustively with votes and DKG results (messages that name a
+           superseded eon after a restart of the key generation) *)
+        LET s == Genesis.keypers[1] IN
+        {Op("tx", [BaseTx("commit", s) EXCEPT !.eon = e, !.gm = 2], "fresh") : e \in Eons} \cup
+        {Op("tx", [BaseTx(k, s) EXCEPT !.eon = e, !.to = <<BadPeer(s)>>], "fresh") :
+            k \in {"eval", "acc", "apol"}, e \in Eons}
+     ELSE {}) \cup
     (IF "bad" \in Kinds THEN
         (* gm selects one of the undecodable byte-string variants of the concretiser *)
         {Op("tx", [BaseTx("garbage", NoAddr) EXCEPT !.gm = v], "fresh") : v \in 0..13} \cup
